@@ -205,6 +205,24 @@ Theorem C06_gen_print_impl : forall (R E D : Type)
 Proof. intros. exact (GenLayoutP.gen_print_impl _ _ _ _ _ _ _ _ _ _ _ _ _ m flags pc tr). Qed.
 Print Assumptions C06_gen_print_impl.
 
+(* THE WIDTH SETTINGS.  SetLevelOutputWidth and SetMessageMinimalWidth, translated from the source on every
+   run (Gen/Layout.v): a tag width is stored iff it lies in 0..5, a minimal width iff it is at least 16,
+   anything else leaves the setting as it was - so, whatever is handed to the setter and in whatever order,
+   the stored tag width stays in 0..5 (Level.ShortTag panics from 6 on; 0 is accepted by the setter and is
+   outside the property's widths 1..5, see the note in the evidence). *)
+Theorem C06_gen_set_level_output_width : forall cur w,
+  Layout.set_level_output_width cur w = (if (0 <=? w) && (w <=? 5) then w else cur).
+Proof. exact GenLayoutP.gen_set_level_output_width. Qed.
+Print Assumptions C06_gen_set_level_output_width.
+Theorem C06_gen_set_message_minimal_width : forall cur w,
+  Layout.set_message_minimal_width cur w = (if 16 <=? w then w else cur).
+Proof. exact GenLayoutP.gen_set_message_minimal_width. Qed.
+Print Assumptions C06_gen_set_message_minimal_width.
+Theorem C06_gen_widths_stay_in_range : forall ws cur, 0 <= cur <= 5 ->
+  0 <= fold_left Layout.set_level_output_width ws cur <= 5.
+Proof. exact GenLayoutP.widths_stay_in_range. Qed.
+Print Assumptions C06_gen_widths_stay_in_range.
+
 Definition ex_isprint (r : Z) : bool := (32 <=? r) && (r <? 127).
 Definition ex_cfg : ecfg :=
   {| e_mode := ShColor; e_name := [x73;x76;x63]; e_lvl := 2; e_caller := Some ([x61;x2e;x67;x6f], 7, [x70;x2f;x6d;x2e;x66]);
